@@ -198,7 +198,7 @@ def correspond(ctx):
             if not known[:, j].all():
                 unknown_atoms[(n, call.method, a['field'])] = unknown_atoms.get((n, call.method, a['field']), 0) + int((~known[:, j]).sum())
 
-    cfgs = plan(ctx, 2, 8)
+    cfgs = plan(ctx, 2, 8, small=not ctx.thorough)
     nrun = 0
     for cfg in cfgs:
         ds = [d['type'] for d in cfg['diseases']]
@@ -468,7 +468,7 @@ def oracle_run(cfg, max_fail=40):
 
 
 def search(ctx):
-    cfgs = plan(ctx, 2, 6)
+    cfgs = plan(ctx, 2, 6, small=not ctx.thorough)
     for cfg in cfgs:
         try:
             fails, info = oracle_run(cfg)
